@@ -37,7 +37,10 @@ package ecs
 //@   maypanic
 //@   requires graphInv(g) && outMask != nil && int(start) < len(g.nodes) && *outMask == g.nodes[start].mask && uint64(len(g.nodes)) + uint64(len(remove)) < 1<<32 - 1
 //@   loop 1 invariant inv: graphInv(g) && uint64(len(g.nodes)) + uint64(len(remove)) - uint64(__idx) < 1<<32 - 1
+//@   loop 1 invariant first: __idx == 0 ==> *outMask == old(*outMask)
+//@   loop 1 invariant had: __idx >= 1 ==> old(mhas(*outMask, remove[0].id))
 //@   loop 1 invariant at: curr != nil && int(curr.id) < len(g.nodes) && __same(curr, &g.nodes[curr.id]) && curr.mask == *outMask
 //@   ensures  inv: graphInv(g)
 //@   ensures  node: result != nil && int(result.id) < len(g.nodes) && __same(result, &g.nodes[result.id]) && result.mask == *outMask
 //@   ensures  removed: forall k int :: 0 <= k && k < len(remove) ==> !mhas(*outMask, remove[k].id)
+//@   ensures  had: len(remove) >= 1 ==> old(mhas(*outMask, remove[0].id))
